@@ -666,13 +666,25 @@ class C07(Check):
     def __init__(self, prop):
         self.prop = prop
 
+    e2e_share = 0.04
+
     def generate(self, st, tier):
+        if st.knob.random() < self.e2e_share:
+            # end-to-end clause: collection on a simulated host with filterable specs (W2)
+            from worlds import w2_collect
+            return w2_collect.gen_e2e(st, tier, "C07")
         return gen_case(st, tier)
 
     def execute(self, case):
+        if case.get("w") == "w2e":
+            from worlds import w2_collect
+            return w2_collect.run_e2e(case, "C07")
         return run_case(case)
 
     def shrink(self, case):
+        if case.get("w") == "w2e":
+            from worlds import w3_cleaner
+            return w3_cleaner.shrink_e2e(case)
         return shrink(case)
 
 
